@@ -231,13 +231,16 @@ def coerce_spec(pd, r):
 
 class C05(Prop):
     ID = 'C05'
-    N_QUICK = 24000
+    N_QUICK = 20000
     N_THOROUGH = 160000
-    RULE = ('a case = one port definition (type, min, max, step, integer, choices incl. bool/number collisions, enabled, '
-            'writable, write transform; a share of degenerate non-well-formed ones) x 4..14 requests: value writes '
+    RULE = ('a case = one port (driver-defined with an instant or a slow driver, or a virtual port created through POST /ports) '
+            'with a definition (type, min, max, step, integer, choices incl. bool/number collisions, enabled, '
+            'writable, write transform; a share of degenerate non-well-formed ones) x 4..14 operations: value writes '
             '(grid points, off-grid neighbours, min/max edges +-eps, integer-valued floats, exponent forms, bools vs 0/1, '
             'huge/tiny magnitudes, null/strings/arrays/objects, NaN/Infinity tokens, literals beyond binary64), sequence '
-            'writes (valid, one bad element, malformed shapes), unknown port ids, enable/disable, time passing. '
+            'writes (valid, one bad element, malformed shapes), bursts of 2-4 overlapping value writes, unknown port ids, '
+            'enable/disable, time passing, redefinition of the port under the same id (PUT /ports or DELETE + POST) with '
+            'values chosen against the old and the new definition. '
             'Non-trivial = at least one accepted and one refused request; distinct = distinct (port definition class, '
             'outcome list).')
     CORRESPONDENCE = ('ValueDomain.step (handleValue/handleSeq/validateValue/performWrite/flush) <-> '
@@ -275,8 +278,12 @@ class C05(Prop):
         self.handler = FakeHandler(core_api.ACCESS_LEVEL_ADMIN)
         self.counter = 0
 
+        from qtoggleserver.core import vports as core_vports
+        self.core_vports = core_vports
+        vcalls = self._vcalls = {}     # port id -> values handed to write_value(), in call order
+
         class VerifPort(core_ports.Port):
-            def __init__(self, id_, type_, min_, max_, integer, step, choices, writable):
+            def __init__(self, id_, type_, min_, max_, integer, step, choices, writable, latency_ms=0):
                 super().__init__(id_)
                 self._type = type_
                 self._min = min_
@@ -285,17 +292,29 @@ class C05(Prop):
                 self._step = step
                 self._choices = choices
                 self._writable = writable
-                self.verif_calls = []
+                self.verif_latency_ms = latency_ms
                 self.verif_value = None
 
             async def read_value(self):
                 return self.verif_value
 
             async def write_value(self, value):
-                self.verif_calls.append(value)
+                vcalls.setdefault(self.get_id(), []).append(value)      # handed to the driver now
+                if self.verif_latency_ms:
+                    await asyncio.sleep(self.verif_latency_ms / 1000.0)  # a slow device (virtual time)
                 self.verif_value = value
 
         self.port_cls = VerifPort
+
+        # ports created through the API (POST /ports, PUT /ports) are VirtualPorts: record what their driver method is
+        # handed (the class's public write_value is wrapped once per worker process)
+        orig_write = core_vports.VirtualPort.write_value
+
+        async def recording_write(port, value):
+            vcalls.setdefault(port.get_id(), []).append(value)
+            return await orig_write(port, value)
+
+        core_vports.VirtualPort.write_value = recording_write
 
     def teardown(self):
         self.loop.close()
@@ -347,6 +366,26 @@ class C05(Prop):
                      ['value', True, 'false']]},
             # transform failing to evaluate: 500, nothing written
             {'port': dict(free, tw='DIV(1, $)'), 'ops': [['value', True, '0'], ['value', True, '4']]},
+            # overlapping requests: every accepted one reaches the driver with its own value (slow driver; simultaneous
+            # submissions through a write transform)
+            {'port': dict(intp, max='100'), 'latency': 50,
+             'ops': [['burst', [[True, '10'], [True, '20'], [True, '30'], [True, '40']]],
+                     ['burst', [[True, '1'], [True, '101'], [True, '2.0'], [False, '3']]]]},
+            {'port': dict(free, tw='MUL($, 2)'), 'ops': [['burst', [[True, '1'], [True, '2.5'], [True, '3']]],
+                                                          ['value', True, '4']]},
+            # the port is redefined under the same id (backup restore, DELETE + POST): the definition in force decides
+            {'port': dict(free, min='0', max='100'), 'virtual': True,
+             'ops': [['value', True, '30'], ['redefine', 'put', dict(free, min='0', max='10')], ['value', True, '30'],
+                     ['value', True, '10.5'], ['value', True, '7'],
+                     ['redefine', 'delete-post', dict(free, min='0', max='1000', integer=True)], ['value', True, '300'],
+                     ['value', True, '7.5']]},
+            {'port': dict(free, choices=['1', '2', '3']), 'virtual': True,
+             'ops': [['value', True, '3'], ['seq', True, '{"values": [1, 2], "delays": [100, 100], "repeat": 2}'],
+                     ['redefine', 'put', dict(free, choices=['1', '5'])], ['value', True, '3'], ['value', True, '5'],
+                     ['advance', 1001],
+                     ['redefine', 'put', {'type': 'boolean', 'min': None, 'max': None, 'step': None, 'integer': None,
+                                          'choices': None, 'enabled': True, 'writable': True, 'tw': 'NOT($)'}],
+                     ['value', True, '1'], ['value', True, 'true']]},
             # NaN / Infinity tokens
             {'port': dict(free, min='0'), 'ops': [['value', True, 'NaN'], ['value', True, 'Infinity'],
                                                    ['value', True, '-Infinity']]},
@@ -587,24 +626,138 @@ class C05(Prop):
             delays = ['0'] * big
         return '{"values": [' + ', '.join(vals) + '], "delays": [' + ', '.join(delays) + '], "repeat": ' + rep + '}'
 
+    def _gen_good_value(self, rng, pd, tries=4):
+        """A request value that is, more often than not, inside the port's domain."""
+        v = self._gen_value(rng, pd, numeric_only=True)
+        parsed = self._parse_port(pd, loads=json.loads)
+        for _ in range(tries):
+            try:
+                x = json.loads(v)
+            except ValueError:
+                break
+            if (isinstance(x, bool) or is_number(x)) and not is_nonfinite(x) and in_domain(pd, parsed, x):
+                break
+            v = self._gen_value(rng, pd, numeric_only=True)
+        return v
+
+    def _gen_burst(self, rng, pd):
+        n = rng.choice([2, 2, 3, 3, 4])
+        reqs = []
+        for _ in range(n):
+            known = rng.random() < 0.97
+            if rng.random() < 0.8:
+                reqs.append([known, self._gen_good_value(rng, pd)])
+            else:
+                reqs.append([known, self._gen_value(rng, pd)])
+        return ['burst', reqs]
+
+    def _virtualize(self, rng, pd):
+        """Restrict a definition to what POST /ports accepts: writable, choices of at least two booleans/numbers."""
+        pd = dict(pd, writable=True)
+        if pd['choices'] is not None and len(pd['choices']) < 2:
+            pd['choices'] = (pd['choices'] + ['1', '2'])[:2] if pd['type'] == 'number' else ['true', 'false']
+        return pd
+
+    def _gen_redefinition(self, rng, pd):
+        """Another definition for the same port id: usually a variation of the current one (narrower/wider range, other
+        step, integer flag, other choices, other type), sometimes an unrelated one."""
+        r = rng.random()
+        if r < 0.15:
+            return self._virtualize(rng, dict(self._gen_port(rng), enabled=True))
+        npd = dict(pd, enabled=True)
+        if pd['type'] == 'boolean':
+            if rng.random() < 0.6:
+                npd = dict(self._gen_port(rng), enabled=True)
+                for _ in range(5):
+                    if npd['type'] == 'number':
+                        break
+                    npd = dict(self._gen_port(rng), enabled=True)
+            else:
+                npd['tw'] = rng.choice(BOOL_TW + [None])
+            return self._virtualize(rng, npd)
+        k = rng.choice(['max', 'max', 'min', 'range', 'step', 'integer', 'choices', 'choices', 'type', 'tw', 'nochoices'])
+        lo = F(pd['min']) if pd['min'] is not None else F(0)
+        hi = F(pd['max']) if pd['max'] is not None else lo + 100
+        if k == 'max':
+            npd['max'] = self._dec(lo + (hi - lo) * rng.choice([F(1, 10), F(1, 2), F(10), F(2)])) if hi > lo else self._dec(lo + 10)
+        elif k == 'min':
+            npd['min'] = self._dec(lo + rng.choice([F(1), F(-10), (hi - lo) / 2 if hi > lo else F(2), F(1, 2)]))
+        elif k == 'range':
+            npd['min'], npd['max'] = self._dec(lo + (hi - lo) / 4), self._dec(lo + (hi - lo) / 2)
+        elif k == 'step':
+            npd['step'] = rng.choice([None, '0.1', '0.5', '1', '2', '3', '0.25', '5'])
+            if npd['min'] is None:
+                npd['min'] = '0'
+        elif k == 'integer':
+            npd['integer'] = not pd['integer']
+        elif k == 'choices':
+            pool = ['0', '1', '2', '3', '5', '2.5', '10', '0.5', '7', '4']
+            if pd['choices']:
+                keep = [c for c in pd['choices'] if c not in ('true', 'false') and rng.random() < 0.5]
+                npd['choices'] = (keep + [rng.choice(pool), rng.choice(pool)])[:4]
+            else:
+                npd['choices'] = [rng.choice(pool) for _ in range(rng.choice([2, 3]))]
+        elif k == 'nochoices':
+            npd['choices'] = None
+        elif k == 'type':
+            npd = {'type': 'boolean', 'min': None, 'max': None, 'step': None, 'integer': None, 'choices': None,
+                   'enabled': True, 'writable': True, 'tw': rng.choice([None, None, 'NOT($)'])}
+        else:
+            npd['tw'] = rng.choice(NUM_TW + [None])
+        return self._virtualize(rng, npd)
+
     def gen(self, rng, tier):
         pd = self._gen_port(rng)
+        kind = rng.random()
+        case = {'port': pd}
+        virtual = kind < 0.14
+        slow = 0.14 <= kind < 0.28
+        if virtual:
+            pd = case['port'] = self._virtualize(rng, pd)
+            case['virtual'] = True
+        if slow:
+            case['latency'] = rng.choice([20, 50, 100])
         nops = rng.randint(4, 14)
         ops = []
-        for _ in range(nops):
+        cur, old = pd, None
+        redefs = 0
+        for i in range(nops):
             r = rng.random()
             known = rng.random() < 0.96
-            if r < 0.66:
-                ops.append(['value', known, self._gen_value(rng, pd)])
+            if virtual and redefs < 2 and i >= 1 and r < 0.16:
+                old, cur = cur, self._gen_redefinition(rng, cur)
+                ops.append(['redefine', rng.choice(['put', 'put', 'delete-post']), cur])
+                redefs += 1
+                continue
+            # after a redefinition, values chosen with respect to the OLD definition are the telling ones
+            ref = old if (old is not None and rng.random() < 0.5) else cur
+            if slow:
+                if r < 0.45:
+                    ops.append(self._gen_burst(rng, ref))
+                elif r < 0.9:
+                    ops.append(['value', known, self._gen_value(rng, ref) if rng.random() < 0.5 else self._gen_good_value(rng, ref)])
+                elif r < 0.95:
+                    ops.append(['enable'])
+                else:
+                    ops.append(['disable'])
+                continue
+            if r < 0.60:
+                if old is not None and rng.random() < 0.5:
+                    ops.append(['value', known, self._gen_good_value(rng, ref)])
+                else:
+                    ops.append(['value', known, self._gen_value(rng, ref)])
+            elif r < 0.68:
+                ops.append(self._gen_burst(rng, ref))
             elif r < 0.84:
-                ops.append(['seq', known, self._gen_seq(rng, pd)])
+                ops.append(['seq', known, self._gen_seq(rng, ref)])
             elif r < 0.88:
                 ops.append(['enable'])
             elif r < 0.91:
                 ops.append(['disable'])
             else:
                 ops.append(['advance', 100 * rng.choice([0, 1, 1, 2, 3, 5, 10]) + 1])
-        return {'port': pd, 'ops': ops}
+        case['ops'] = ops
+        return case
 
     def shrink_candidates(self, case):
         ops = case['ops']
@@ -616,11 +769,17 @@ class C05(Prop):
                 cand = ops[:i] + ops[i + size:]
                 if cand and len(cand) < n:
                     yield dict(case, ops=cand)
+        for i, op in enumerate(ops):
+            if op[0] == 'burst' and len(op[1]) > 2:
+                for k in range(len(op[1])):
+                    yield dict(case, ops=ops[:i] + [['burst', op[1][:k] + op[1][k + 1:]]] + ops[i + 1:])
         pd = case['port']
         for k, v in (('tw', None), ('choices', None), ('integer', None), ('max', None), ('step', None), ('min', None),
                      ('enabled', True), ('writable', True)):
             if pd.get(k) != v:
                 yield dict(case, port=dict(pd, **{k: v}))
+        if case.get('latency'):
+            yield dict(case, latency=0)
 
     # ---------------------------------------------------------------- running
     def _parse_port(self, pd, loads=None):
@@ -660,91 +819,160 @@ class C05(Prop):
             return 'e', ('error', None)
         return 'v' + jval_tok(r), ('val', r)
 
-    async def _snapshot(self, port):
+    async def _snapshot(self, port, calls):
         try:
             js = await port.to_json()
             js = json.dumps(js, sort_keys=True, default=str)
         except Exception as e:  # noqa
             js = 'to_json failed: ' + type(e).__name__
-        return [js, repr(port.verif_value), port.is_enabled(), len(port.verif_calls)]
+        return [js, repr(getattr(port, 'verif_value', None)), port.is_enabled(), len(calls)]
+
+    def _doc(self, pid, pd):
+        """The POST /ports (or PUT /ports entry) body that declares a virtual port with definition pd."""
+        parsed = self._parse_port(pd)
+        doc = {'id': pid, 'type': pd['type']}
+        for k in ('min', 'max', 'step'):
+            if parsed[k] is not None:
+                doc[k] = parsed[k]
+        if pd['integer'] is not None:
+            doc['integer'] = pd['integer']
+        if parsed['choices'] is not None:
+            doc['choices'] = [{'value': c} for c in parsed['choices']]
+        return doc
+
+    async def _api(self, func, *args):
+        try:
+            await func(self.handler, *args)
+            return 'ok'
+        except self.core_api.APIAccepted:
+            return 'ok'
+        except self.core_api.APIError as e:
+            return f'err:{e.status}:{e.code}'
+        except Exception as e:  # the web layer answers 500 for any other exception
+            return f'err:500:exception:{type(e).__name__}'
+
+    async def _prepare(self, pid, pd, virtual, parsed_ops, start):
+        """Bring the (new) port to its initial state: write transform, enabled flag; compute the outcomes of the write
+        transform (real expression evaluator) for every value requested while this definition is in force."""
+        port = self.core_ports.get(pid)
+        await port.enable()
+        expr = None
+        if pd['tw']:
+            if virtual:
+                r = await self._api(self.ports_funcs.patch_port, pid, {'transform_write': pd['tw']})
+                if r != 'ok':
+                    raise RuntimeError(f'cannot set transform_write: {r}')
+            else:
+                await port.set_attr('transform_write', pd['tw'])
+            expr = self.core_expressions.parse(pid, pd['tw'], role=self.core_expressions.ROLE_TRANSFORM_WRITE)
+        touts = {}
+        for op, body in parsed_ops[start:]:
+            if op[0] == 'redefine':
+                break
+            vs = []
+            if op[0] == 'value' and body[0]:
+                vs = [body[1]]
+            elif op[0] == 'burst':
+                vs = [b[1] for b in body if b[0]]
+            elif op[0] == 'seq' and body[0] and self._seq_shape(body[1]):
+                vs = body[1]['values']
+            for v in vs:
+                k = jval_tok(v)
+                if k not in touts:
+                    touts[k] = await self._tout(expr, pid, v)
+        if not pd.get('enabled', True):
+            await port.disable()
+        return touts
 
     async def _real(self, case, parsed_ops):
         pd = case['port']
-        parsed = self._parse_port(pd)
+        virtual = bool(case.get('virtual'))
+        latency = int(case.get('latency') or 0)
         self.counter += 1
         pid = f'vp{self.counter}'
-        choices = None if parsed['choices'] is None else [{'value': c} for c in parsed['choices']]
-        ports = await self.core_ports.load([{
-            'driver': self.port_cls, 'id_': pid, 'type_': pd['type'], 'min_': parsed['min'], 'max_': parsed['max'],
-            'integer': pd['integer'], 'step': parsed['step'], 'choices': choices, 'writable': pd['writable']}])
-        port = ports[0]
+        calls = self._vcalls[pid] = []
+        if virtual:
+            r = await self._api(self.ports_funcs.post_ports, self._doc(pid, pd))
+            if r != 'ok':
+                raise RuntimeError(f'POST /ports refused the port definition: {r}')
+        else:
+            parsed = self._parse_port(pd)
+            choices = None if parsed['choices'] is None else [{'value': c} for c in parsed['choices']]
+            await self.core_ports.load([{
+                'driver': self.port_cls, 'id_': pid, 'type_': pd['type'], 'min_': parsed['min'], 'max_': parsed['max'],
+                'integer': pd['integer'], 'step': parsed['step'], 'choices': choices, 'writable': pd['writable'],
+                'latency_ms': latency}])
         out = []
-        touts = {}
         try:
-            await port.enable()
-            expr = None
-            if pd['tw']:
-                await port.set_attr('transform_write', pd['tw'])
-                expr = self.core_expressions.parse(pid, pd['tw'], role=self.core_expressions.ROLE_TRANSFORM_WRITE)
-            # transform outcomes for every value of the case, while the port is enabled
-            for op, body in parsed_ops:
-                vs = []
-                if op[0] == 'value' and body[0]:
-                    vs = [body[1]]
-                elif op[0] == 'seq' and body[0] and self._seq_shape(body[1]):
-                    vs = body[1]['values']
-                for v in vs:
-                    k = jval_tok(v)
-                    if k not in touts:
-                        touts[k] = await self._tout(expr, pid, v)
-            if not pd['enabled']:
-                await port.disable()
+            touts = await self._prepare(pid, pd, virtual, parsed_ops, 0)
             await asyncio.sleep(1e-6)
-            port.verif_calls.clear()
-            for op, body in parsed_ops:
-                before = len(port.verif_calls)
-                snap = await self._snapshot(port)
+            calls.clear()
+            for idx, (op, body) in enumerate(parsed_ops):
+                port = self.core_ports.get(pid)
+                before = len(calls)
+                snap = await self._snapshot(port, calls) if port is not None else None
                 res = 'ok'
-                target = pid if (len(op) > 1 and op[1] is True) else 'verif_no_such_port'
                 try:
                     if op[0] == 'value':
                         if not body[0]:
                             res = 'malformed-body'
                         else:
-                            await self.ports_funcs.patch_port_value(self.handler, target, body[1])
+                            res = await self._api(self.ports_funcs.patch_port_value,
+                                                  pid if op[1] is True else 'verif_no_such_port', body[1])
+                    elif op[0] == 'burst':
+                        # the requests are submitted together and overlap (each awaits its own write)
+                        coros = [self._api(self.ports_funcs.patch_port_value, pid if k is True else 'verif_no_such_port', b[1])
+                                 for (k, _), b in zip(op[1], body) if b[0]]
+                        got = list(await asyncio.gather(*coros))
+                        res = [got.pop(0) if b[0] else 'malformed-body' for b in body]
                     elif op[0] == 'seq':
                         if not body[0]:
                             res = 'malformed-body'
                         else:
-                            await self.ports_funcs.patch_port_sequence(self.handler, target, body[1])
+                            res = await self._api(self.ports_funcs.patch_port_sequence,
+                                                  pid if op[1] is True else 'verif_no_such_port', body[1])
                     elif op[0] == 'enable':
                         await port.enable()
                     elif op[0] == 'disable':
                         await port.disable()
                     elif op[0] == 'advance':
                         await asyncio.sleep(op[1] / 1000.0)
-                except self.core_api.APIAccepted:
-                    res = 'ok'
-                except self.core_api.APIError as e:
-                    res = f'err:{e.status}:{e.code}'
-                except Exception as e:  # the web layer answers 500 for any other exception
+                    elif op[0] == 'redefine':
+                        if op[1] == 'put':
+                            res = await self._api(self.ports_funcs.put_ports, [dict(self._doc(pid, op[2]), virtual=True)])
+                        else:
+                            res = await self._api(self.ports_funcs.delete_port, pid)
+                            if res == 'ok':
+                                res = await self._api(self.ports_funcs.post_ports, self._doc(pid, op[2]))
+                        if res == 'ok' and self.core_ports.get(pid) is not None:
+                            touts = await self._prepare(pid, op[2], True, parsed_ops, idx + 1)
+                        else:
+                            res = 'redefine-failed:' + str(res)
+                except Exception as e:
+                    if op[0] in ('enable', 'disable', 'advance'):
+                        raise
                     res = f'err:500:exception:{type(e).__name__}'
                 await asyncio.sleep(1e-6)     # lets everything that is ready run (virtual time: nothing else is due)
-                calls = list(port.verif_calls[before:])
-                snap2 = await self._snapshot(port)
-                out.append({'res': res, 'calls': calls, 'unchanged': snap == snap2})
+                port2 = self.core_ports.get(pid)
+                snap2 = await self._snapshot(port2, calls) if port2 is not None else None
+                out.append({'res': res, 'calls': list(calls[before:]), 'unchanged': snap == snap2, 'touts': touts})
             # drain
-            before = len(port.verif_calls)
+            before = len(calls)
             await asyncio.sleep(BIG_DRAIN_MS / 1000.0)
             await asyncio.sleep(1e-6)
-            out.append({'res': 'ok', 'calls': list(port.verif_calls[before:]), 'unchanged': True})
+            out.append({'res': 'ok', 'calls': list(calls[before:]), 'unchanged': True, 'touts': touts})
         finally:
-            try:
-                await port.disable()
-            except Exception:
-                pass
-            await port.remove()
-        return out, touts, parsed
+            port = self.core_ports.get(pid)
+            if port is not None:
+                try:
+                    await port.disable()
+                except Exception:
+                    pass
+                await port.remove()
+                if virtual:
+                    await self.core_vports.remove(pid)
+            self._vcalls.pop(pid, None)
+        return out
 
     # canonical response classes -------------------------------------------------------
     @staticmethod
@@ -771,7 +999,7 @@ class C05(Prop):
             return 'err:400:invalid'
         return f'err:400:{code}'
 
-    def _port_line(self, pd, parsed):
+    def _port_line(self, pd, parsed, word='port'):
         def rt(x):
             return '-' if x is None else frac_tok(exact(x))
         ch = parsed['choices']
@@ -781,25 +1009,50 @@ class C05(Prop):
             cs = '[]'
         else:
             cs = ','.join(('b1' if c else 'b0') if isinstance(c, bool) else 'n' + frac_tok(exact(c)) for c in ch)
-        return (f'port {"b" if pd["type"] == "boolean" else "n"} {rt(parsed["min"])} {rt(parsed["max"])} '
+        return (f'{word} {"b" if pd["type"] == "boolean" else "n"} {rt(parsed["min"])} {rt(parsed["max"])} '
                 f'{rt(parsed["step"])} {1 if pd["integer"] else 0} {cs} {1 if pd["enabled"] else 0} '
                 f'{1 if pd["writable"] else 0} {1 if pd["tw"] else 0}')
 
-    def _model(self, case, parsed_ops, touts, parsed, driver):
+    def _model(self, case, parsed_ops, real, driver):
         pd = case['port']
+        if case.get('virtual'):
+            pd = dict(pd, writable=True)
         assert driver.ask(f'begin {self.max_items} 1 1 1') == 'ok'
-        rep = driver.ask(self._port_line(pd, parsed))
+        rep = driver.ask(self._port_line(pd, self._parse_port(pd)))
         if rep != 'ok':
             raise AssertionError(f'model refused the port line: {rep}')
         out = []
-        for op, body in parsed_ops + [(['advance', BIG_DRAIN_MS], None)]:
+
+        def ask(op, line):
+            rep = driver.ask(line)
+            if rep == 'bad-op':
+                raise AssertionError(f'model refused line {line[:200]!r}')
+            calls = []
+            if rep.startswith('ok'):
+                body_ = rep[2:].strip()
+                calls = [canon_tok(t) for t in body_.split(',')] if body_ else []
+            return self._canon_model(op, rep), calls
+
+        for idx, (op, body) in enumerate(parsed_ops + [(['advance', BIG_DRAIN_MS], None)]):
+            touts = real[idx]['touts']
             if op[0] == 'value':
                 if not body[0]:
                     out.append(('malformed-body', []))
                     continue
-                v = body[1]
-                k = jval_tok(v)
-                line = f'value {1 if op[1] else 0} {k} {touts[k][0]}'
+                k = jval_tok(body[1])
+                out.append(ask(op, f'value {1 if op[1] else 0} {k} {touts[k][0]}'))
+            elif op[0] == 'burst':
+                # overlapping requests: the model serves them one after the other, in submission order
+                resps, calls = [], []
+                for (known, _), b in zip(op[1], body):
+                    if not b[0]:
+                        resps.append('malformed-body')
+                        continue
+                    k = jval_tok(b[1])
+                    r, c = ask(['value'], f'value {1 if known else 0} {k} {touts[k][0]}')
+                    resps.append(r)
+                    calls += c
+                out.append((resps, calls))
             elif op[0] == 'seq':
                 if not body[0]:
                     out.append(('malformed-body', []))
@@ -818,49 +1071,70 @@ class C05(Prop):
                     parts += [k, touts[k][0]]
                 line = (f'seq {1 if op[1] else 0} {jval_tok(rep_)} {len(values)} ' + ' '.join(parts) +
                         f' {len(delays)} ' + ' '.join(jval_tok(d) for d in delays)).replace('  ', ' ').strip()
+                out.append(ask(op, line))
             elif op[0] in ('enable', 'disable'):
-                line = op[0]
+                out.append(ask(op, op[0]))
+            elif op[0] == 'redefine':
+                npd = dict(op[2], enabled=True, writable=True)       # a port created through the API starts enabled
+                out.append(ask(op, self._port_line(npd, self._parse_port(npd), 'redefine')))
+                if not op[2].get('enabled', True):
+                    ask(['disable'], 'disable')
             else:
-                line = f'advance {op[1]}'
-            rep = driver.ask(line)
-            if rep == 'bad-op':
-                raise AssertionError(f'model refused line {line[:200]!r}')
-            calls = []
-            if rep.startswith('ok'):
-                body_ = rep[2:].strip()
-                calls = [canon_tok(t) for t in body_.split(',')] if body_ else []
-            out.append((self._canon_model(op, rep), calls))
+                out.append(ask(op, f'advance {op[1]}'))
         return out
 
+    def _parse_body(self, text):
+        try:
+            return (True, self.json_utils.loads(text))
+        except ValueError:
+            return (False, None)
+
     def run_case(self, case, driver):
-        pd = case['port']
         ops = case['ops']
+        virtual = bool(case.get('virtual'))
         # parse the bodies with the repository's own JSON parser, as the web handler does
         if not hasattr(self, 'json_utils'):
             raise RuntimeError('setup() not run')
         parsed_ops = []
         for op in ops:
             if op[0] in ('value', 'seq'):
-                try:
-                    parsed_ops.append((op, (True, self.json_utils.loads(op[2]))))
-                except ValueError:
-                    parsed_ops.append((op, (False, None)))
+                parsed_ops.append((op, self._parse_body(op[2])))
+            elif op[0] == 'burst':
+                parsed_ops.append((op, [self._parse_body(t) for _, t in op[1]]))
             else:
                 parsed_ops.append((op, None))
-        real, touts, parsed = self.loop.run_until_complete(self._real(case, parsed_ops))
-        model = self._model(case, parsed_ops, touts, parsed, driver)
+        real = self.loop.run_until_complete(self._real(case, parsed_ops))
+        model = self._model(case, parsed_ops, real, driver)
 
-        wf = well_formed(pd, parsed)
         strict = bool(case.get('strict_text'))
         tags = set()
-        tags.add('port:' + pd['type'] + (':int' if pd['integer'] else '') + (':choices' if pd['choices'] is not None else '') +
-                 (':step' if pd['step'] is not None else '') + (':tw' if pd['tw'] else ''))
-        if not wf:
-            tags.add('port:degenerate')
         fail = None
-        enabled = pd['enabled']
         legit = []          # canonical deliveries that accepted sequence requests entitle the driver to see
         n_ok = n_rej = 0
+
+        # ---- the definition in force (rebound at every redefinition)
+        pd = parsed = wf = touts = prev = None
+        enabled = True
+
+        def in_force(npd, first):
+            nonlocal pd, parsed, wf, touts, prev, enabled, legit
+            prev = None if first else (pd, parsed, wf)
+            pd = dict(npd, writable=True) if virtual else npd
+            parsed = self._parse_port(pd)
+            wf = well_formed(pd, parsed)
+            enabled = pd.get('enabled', True)
+            legit = []
+            tags.add(('port:' if first else 'redefined:') + pd['type'] + (':int' if pd['integer'] else '') +
+                     (':choices' if pd['choices'] is not None else '') + (':step' if pd['step'] is not None else '') +
+                     (':tw' if pd['tw'] else ''))
+            if not wf:
+                tags.add('port:degenerate')
+
+        in_force(case['port'], True)
+        if virtual:
+            tags.add('port:virtual')
+        if case.get('latency'):
+            tags.add('driver:slow')
 
         def expected_delivery(v):
             kind, r = touts[jval_tok(v)][1]
@@ -888,33 +1162,115 @@ class C05(Prop):
             except (ValueError, ZeroDivisionError):
                 return False
 
+        def take_legit(cc):
+            hit = next((i for i, l in enumerate(legit) if same_delivery(l, cc)), None)
+            if hit is not None:
+                legit.pop(hit)
+            return hit is not None
+
+        def judge_value(idx, known, text, v, res, where_calls):
+            """accept-iff part of the oracle for one value request; returns (failure or None, accepted, expected
+            delivery or None, judged?)."""
+            nonlocal n_ok, n_rej
+            rc = self._canon_real(['value'], res)
+            accepted = rc == 'ok'
+            tags.add(f'value:{rc}')
+            n_ok += accepted
+            n_rej += not accepted
+            where = ''
+            f = None
+            d = dom(v, text) if wf else None
+            if beyond(v, text):
+                where = 'beyond-binary64'
+                tags.add('value:beyond-binary64')
+            if d is None:
+                tags.add('value:not-judged')
+                return None, accepted, None, False, where
+            if not is_nonfinite(v):
+                tags.add('dom:' + domain_class(pd, parsed, v))
+                if prev is not None and prev[2] and in_domain(prev[0], prev[1], v) != d:
+                    tags.add('redefined:domain-differs-from-old')
+            if d and pd['tw']:
+                tags.add('tw:' + touts[jval_tok(v)][1][0])
+            exp = expected_delivery(v) if d else None
+            should = bool(known) and enabled and pd['writable'] and d
+            if should and exp is None:
+                # the write transform does not evaluate on this value: the request cannot be served
+                if accepted:
+                    f = Failure('property', f'op {idx}: accepted although the write transform fails on {text}',
+                                real=real, where=where)
+            elif accepted != should:
+                why = ('in-domain value refused' if should else 'accepted although ' +
+                       ('the port does not exist' if not known else 'the port is disabled' if not enabled else
+                        'the port is read-only' if not pd['writable'] else 'the value is outside the domain') +
+                       (' of the definition in force' if prev is not None else ''))
+                f = Failure('property', f'op {idx}: value {text} -> {res}: {why}', real=real, where=where)
+            if strict and is_number(v) and pd['tw'] is None and exp is not None:
+                exp = ['n', frac_tok(F(text))]
+            return f, accepted, exp, True, where
+
         for idx, (op, body) in enumerate(parsed_ops):
             ob = real[idx]
-            rc = self._canon_real(op, ob['res'])
-            accepted = rc == 'ok'
+            touts = ob['touts']
             if op[0] == 'enable':
                 enabled = True
                 continue
             if op[0] == 'disable':
                 enabled = False
+                legit = []
+                continue
+            if op[0] == 'redefine':
+                tags.add('redefine:' + op[1])
+                if ob['calls'] and fail is None:
+                    fail = Failure('property', f'op {idx}: the driver was called while the port was redefined', real=real)
+                in_force(op[2], False)
                 continue
             if op[0] == 'advance':
                 for c in (ob['calls'] if wf else []):
                     cc = canon(c)
-                    hit = next((i for i, l in enumerate(legit) if same_delivery(l, cc)), None)
-                    if hit is None and fail is None:
+                    if not take_legit(cc) and fail is None:
                         fail = Failure('property', f'op {idx}: the driver was handed {cc} which no accepted sequence '
                                        f'request entitles it to', real=real)
-                    elif hit is not None:
-                        legit.pop(hit)
+                continue
+            if op[0] == 'burst':
+                tags.add(f'burst:{len(op[1])}')
+                exps, judged_all, acc = [], True, 0
+                for (known, text), b, res in zip(op[1], body, ob['res']):
+                    if not b[0]:
+                        continue
+                    f, accepted, exp, judged, _ = judge_value(idx, known, text, b[1], res, None)
+                    if f is not None and fail is None:
+                        fail = f
+                    judged_all = judged_all and judged
+                    acc += accepted
+                    if accepted and exp is not None:
+                        exps.append(exp)
+                if acc >= 2:
+                    tags.add('burst:overlapping-accepted')
+                if wf and judged_all and fail is None:
+                    # every accepted request hands the driver its own value: one call each, none merged or dropped
+                    got = [canon(c) for c in ob['calls']]
+                    rest = list(exps)
+                    bad = None
+                    for g in got:
+                        hit = next((i for i, e in enumerate(rest) if same_delivery(e, g)), None)
+                        if hit is None:
+                            bad = g
+                            break
+                        rest.pop(hit)
+                    if bad is not None or rest or len(got) != acc:
+                        fail = Failure('property', f'op {idx}: {acc} overlapping value requests {[t for _, t in op[1]]} were '
+                                       f'accepted ({ob["res"]}) but the driver was handed {got}; expected one call per '
+                                       f'accepted request: {exps} (write transform {pd["tw"]!r}, then coercion)', real=real)
+                if acc == 0 and fail is None and (ob['calls'] or not ob['unchanged']):
+                    fail = Failure('property', f'op {idx}: every request of the burst was refused but the driver was called or '
+                                   f'the port\'s observable state changed', real=real)
                 continue
             if not body[0]:
                 tags.add('malformed-body')
                 continue
-            tags.add(f'{op[0]}:{rc}')
-            n_ok += accepted
-            n_rej += not accepted
-            where = ''
+            rc = self._canon_real(op, ob['res'])
+            accepted = rc == 'ok'
             # ---- a refusal never reaches the driver and changes nothing
             if not accepted and fail is None:
                 if ob['calls']:
@@ -924,40 +1280,20 @@ class C05(Prop):
                     fail = Failure('property', f'op {idx} {op[:2]}: refused ({rc}) but the port\'s observable state changed',
                                    real=real)
             if op[0] == 'value':
-                v = body[1]
-                d = dom(v, op[2]) if wf else None
-                if beyond(v, op[2]):
-                    where = 'beyond-binary64'
-                    tags.add('value:beyond-binary64')
-                if d is None:
-                    tags.add('value:not-judged')
-                else:
-                    if not is_nonfinite(v):
-                        tags.add('dom:' + domain_class(pd, parsed, v))
-                    if d and pd['tw']:
-                        tags.add('tw:' + touts[jval_tok(v)][1][0])
-                    exp = expected_delivery(v) if d else None
-                    should = bool(op[1]) and enabled and pd['writable'] and d
-                    if should and exp is None and d:
-                        # the write transform does not evaluate on this value: the request cannot be served
-                        if accepted and fail is None:
-                            fail = Failure('property', f'op {idx}: accepted although the write transform fails on {op[2]}',
-                                           real=real, where=where)
-                    elif accepted != should and fail is None:
-                        why = ('in-domain value refused' if should else 'accepted although ' +
-                               ('the port does not exist' if not op[1] else 'the port is disabled' if not enabled else
-                                'the port is read-only' if not pd['writable'] else 'the value is outside the domain'))
-                        fail = Failure('property', f'op {idx}: value {op[2]} -> {ob["res"]}: {why}', real=real, where=where)
-                    elif accepted and fail is None:
-                        got = [canon(c) for c in ob['calls']]
-                        if strict and is_number(v) and pd['tw'] is None:
-                            exp = ['n', frac_tok(F(op[2]))]
-                        if len(got) != 1 or not same_delivery(got[0], exp):
-                            fail = Failure('property', f'op {idx}: value {op[2]} accepted but the driver was handed {got}, '
-                                           f'expected exactly [{exp}] (write transform {pd["tw"]!r}, then coercion)',
-                                           real=real, where=where)
+                f, accepted, exp, judged, where = judge_value(idx, op[1], op[2], body[1], ob['res'], None)
+                if f is not None and fail is None:
+                    fail = f
+                if judged and accepted and fail is None:
+                    got = [canon(c) for c in ob['calls']]
+                    if exp is None or len(got) != 1 or not same_delivery(got[0], exp):
+                        fail = Failure('property', f'op {idx}: value {op[2]} accepted but the driver was handed {got}, '
+                                       f'expected exactly [{exp}] (write transform {pd["tw"]!r}, then coercion)',
+                                       real=real, where=where)
                 # the order of refusals (which error) is part of the correspondence, not of the oracle
             else:
+                tags.add(f'seq:{rc}')
+                n_ok += accepted
+                n_rej += not accepted
                 shape = self._seq_shape(body[1])
                 if shape is None:
                     tags.add('seq:malformed-shape')
@@ -983,12 +1319,9 @@ class C05(Prop):
                                     legit.append(e)
                     for c in (ob['calls'] if wf else []):
                         cc = canon(c)
-                        hit = next((i for i, l in enumerate(legit) if same_delivery(l, cc)), None)
-                        if hit is None and fail is None:
+                        if not take_legit(cc) and fail is None:
                             fail = Failure('property', f'op {idx}: the driver was handed {cc}, not a value of this sequence',
                                            real=real)
-                        elif hit is not None:
-                            legit.pop(hit)
                 if None in ds:
                     tags.add('seq:not-judged')
                 else:
@@ -1002,20 +1335,37 @@ class C05(Prop):
         # the final drain
         for c in (real[-1]['calls'] if wf else []):
             cc = canon(c)
-            hit = next((i for i, l in enumerate(legit) if same_delivery(l, cc)), None)
-            if hit is None and fail is None:
+            if not take_legit(cc) and fail is None:
                 fail = Failure('property', f'drain: the driver was handed {cc} which no accepted sequence request entitles '
                                f'it to', real=real)
-            elif hit is not None:
-                legit.pop(hit)
 
         # ---- correspondence: response class and driver calls, op by op
-        real_c = [[self._canon_real(op, ob['res']) if op[0] in ('value', 'seq') else 'ok', [canon(c) for c in ob['calls']]]
-                  for (op, _), ob in zip(parsed_ops + [(['advance', 0], None)], real)]
-        model_c = [[m[0], m[1]] for m in model]
+        def canon_entry(op, ob):
+            calls = [canon(c) for c in ob['calls']]
+            if op[0] in ('value', 'seq'):
+                return [self._canon_real(op, ob['res']), calls]
+            if op[0] == 'burst':
+                # concurrent requests: the order in which the driver serves them is not part of this property
+                return [[self._canon_real(['value'], r) for r in ob['res']], sorted(calls, key=json.dumps)]
+            if op[0] == 'redefine':
+                return [ob['res'], calls]
+            return ['ok', calls]
+
+        all_ops = parsed_ops + [(['advance', 0], None)]
+        real_c = [canon_entry(op, ob) for (op, _), ob in zip(all_ops, real)]
+        model_c = [[m[0], sorted(m[1], key=json.dumps) if op[0] == 'burst' else m[1]] for (op, _), m in zip(all_ops, model)]
         if fail is None:
             for i, (a, b) in enumerate(zip(real_c, model_c)):
-                if a[0] != b[0] or len(a[1]) != len(b[1]) or not all(same_delivery(x, y) for x, y in zip(a[1], b[1])):
+                same_calls = len(a[1]) == len(b[1]) and all(same_delivery(x, y) for x, y in zip(a[1], b[1]))
+                if not same_calls and all_ops[i][0][0] == 'burst' and len(a[1]) == len(b[1]):
+                    rest = list(b[1])     # multiset comparison up to binary64 identification
+                    for x in a[1]:
+                        hit = next((k for k, y in enumerate(rest) if same_delivery(x, y)), None)
+                        if hit is None:
+                            break
+                        rest.pop(hit)
+                    same_calls = not rest
+                if a[0] != b[0] or not same_calls:
                     opd = ops[i] if i < len(ops) else ['drain']
                     fail = Failure('correspondence', f'first difference at op {i} {str(opd)[:160]}: real {a} model {b}',
                                    real=real_c, model=model_c)
@@ -1025,7 +1375,8 @@ class C05(Prop):
                 tags.add('driver-called')
         key = None
         if n_ok and n_rej:
-            key = json.dumps([sorted(t for t in tags if t.startswith('port:')), [r[0] for r in real_c]])
+            key = json.dumps([sorted(t for t in tags if t.startswith(('port:', 'redefined:', 'driver:'))),
+                              [r[0] for r in real_c]])
         return fail, {'tags': sorted(tags), 'key': key, 'observed': real_c[:6]}
 
     def known_match(self, finding, case, failure):
